@@ -222,6 +222,9 @@ class BinningBase:
         """
         if value and not self.adaptive_allowed:
             raise RuntimeError("Cannot change binning to adaptive.")
+        if value and self.includes_right_edge:
+            # Refused here, not by the first copy of the binning afterwards
+            raise ValueError("Adaptivity does not work together with right-edge inclusion.")
         self._adaptive = value
 
     def _adapt(self, other):
